@@ -95,3 +95,188 @@ pub open spec fn zw_clean<W: Write + io::Seek>(w: &ZipWriter<W>) -> bool { zw_si
 pub open spec fn zw_frozen_kept<W: Write + io::Seek>(a: &ZipWriter<W>, b: &ZipWriter<W>) -> bool {
     a.writing_raw && a.files@.len() > 0 ==> b.files@.len() >= a.files@.len() && b.files@[a.files@.len() - 1] == a.files@.last()
 }
+// ---- C01/C02/C09: the CONTENT of the open entry.  The ghost content of the entry is `w.stats.hasher@`: exactly the
+// bytes ZipWriter::write has accepted for it, in order (zw_write: accounts_exactly_the_accepted_bytes).
+// an entry is open and takes data
+pub open spec fn zw_data_mode<W: Write + io::Seek>(w: &ZipWriter<W>) -> bool {
+    w.writing_to_file && !w.writing_to_extra_field && !w.writing_raw && w.files@.len() > 0
+}
+// the sink an encoder was created over stands at the start of the entry's data, behind the entry's local header
+pub open spec fn zw_enc_sink_ok<W: Write + io::Seek>(m: MaybeEncrypted<W>, w: &ZipWriter<W>) -> bool {
+    m matches MaybeEncrypted::Unencrypted(s) ==> (s.g_dev() && !s.g_fault() ==>
+        s.g_pos() == w.stats.start && lfh_end(w.files@.last()) <= w.stats.start && w.stats.start <= s.g_bytes().len())
+}
+// where the content is, per installed writer
+pub open spec fn zw_data_facts<W: Write + io::Seek>(w: &ZipWriter<W>) -> bool {
+    let data = w.stats.hasher@;
+    &&& data.len() == w.stats.bytes_written
+    // the entry's record points at the data region, and names the method of the installed writer
+    &&& w.files@.last().data_start.0.g_val() == w.stats.start
+    &&& (w.inner is Closed || gzw_method(w.inner) == Some(w.files@.last().compression_method))
+    &&& match w.inner {
+        // a writer that poisoned itself takes no more data and can never be closed successfully
+        GenericZipWriter::Closed => true,
+        // stored: the data region of the entry in the sink IS the content, and the sink stands right behind it
+        GenericZipWriter::Storer(MaybeEncrypted::Unencrypted(s)) => (s.g_dev() && !s.g_fault() ==> {
+            &&& s.g_pos() == w.stats.start + w.stats.bytes_written
+            &&& inb(s.g_bytes(), w.stats.start as int, w.stats.bytes_written as int)
+            &&& at(s.g_bytes(), w.stats.start as int, w.stats.bytes_written as int) == data
+            &&& lfh_end(w.files@.last()) <= w.stats.start
+        }),
+        // stored + ZipCrypto: buffered behind the 12-byte header slot (where the sink is parked: zw_wf)
+        GenericZipWriter::Storer(MaybeEncrypted::Encrypted(z)) =>
+            z.buffer@.len() >= 12 && z.buffer@.subrange(12, z.buffer@.len() as int) == data,
+        // compressed: the encoder has consumed exactly the content; its sink waits at the start of the data
+        GenericZipWriter::Deflater(e) => e.consumed() == data && zw_enc_sink_ok(e.inner(), w),
+        GenericZipWriter::Bzip2(e) => e.consumed() == data && zw_enc_sink_ok(e.inner(), w),
+        GenericZipWriter::Zstd(e) => e.consumed() == data && zw_enc_sink_ok(e.inner(), w),
+    }
+}
+// while the LOCAL extra data of the entry is still being collected: no content yet, and the parked sink stands behind
+// the local header and inside what has been written (so that end_extra_data can open the data region there)
+pub open spec fn zw_predata_facts<W: Write + io::Seek>(w: &ZipWriter<W>) -> bool {
+    &&& w.stats.hasher@.len() == 0 && w.stats.bytes_written == 0
+    &&& (w.inner matches GenericZipWriter::Storer(MaybeEncrypted::Unencrypted(s)) ==> (s.g_dev() && !s.g_fault() ==>
+            lfh_end(w.files@.last()) <= w.files@.last().data_start.0.g_val() <= s.g_bytes().len()))
+}
+// THE content statement of the open entry.  In data mode (zw_data_mode) it is zw_data_facts; it is carried through the
+// extra-data phases that may precede the data (start_file_with_extra_data .. end_extra_data) so that end_extra_data can
+// establish it; it says nothing when no entry is open or the last entry is closed / a raw copy (writing_raw).
+// (opaque: most operations only hand it on; `reveal(zw_data_ok)` where its content is needed)
+#[verifier::opaque]
+pub open spec fn zw_data_ok<W: Write + io::Seek>(w: &ZipWriter<W>) -> bool {
+    w.writing_to_file && !w.writing_raw && w.files@.len() > 0 ==>
+        (if w.writing_to_extra_field && !w.writing_to_central_extra_field_only { zw_predata_facts(w) } else { zw_data_facts(w) })
+}
+// C01/C02: what closing an entry leaves: its record carries the length and CRC-32 of `data` and the length of `stream`
+// (the entry's byte stream: `data` itself when stored, its compressed form otherwise); `stream` lies in the sink from
+// the entry's data start, and the sink stands right behind it
+pub open spec fn entry_closed_over<W: Write + io::Seek>(f: ZipFileData, s1: W, start: int, data: Seq<u8>, stream: Seq<u8>) -> bool {
+    &&& f.uncompressed_size == data.len() && f.crc32 == crc32(data) && f.compressed_size == stream.len()
+    &&& f.data_start.0.g_val() == start
+    &&& inb(s1.g_bytes(), start, stream.len() as int) && at(s1.g_bytes(), start, stream.len() as int) == stream
+    &&& s1.g_pos() == start + stream.len()
+}
+// A failing write keeps the content statement unless a compressing encoder is installed: the assumed encoder contract
+// (shims/encoders.rs) does not say what a failing `write` of flate2 / bzip2 / zstd has consumed.
+pub open spec fn zw_err_keeps_content<W: Write + io::Seek>(w: &ZipWriter<W>) -> bool {
+    w.inner is Storer || w.inner is Closed || w.writing_to_extra_field
+}
+// the back-patch of the local header (update_local_file_header) lies below lfh_end: a region above it is untouched
+// @props: C01 C02 -- patching CRC and sizes into a local header leaves every byte at or above the end of that header alone
+pub proof fn lemma_backpatch_below(b: Seq<u8>, f: ZipFileData, q: int, n: int)
+    requires 0 <= f.header_start, lfh_end(f) <= q, 0 <= n, q + n <= b.len()
+    ensures
+        !f.large_file ==> ({
+            let b2 = put(b, f.header_start + 14, le32(f.crc32) + le32(f.compressed_size as u32) + le32(f.uncompressed_size as u32));
+            at(b2, q, n) == at(b, q, n) && inb(b2, q, n) }),
+        f.large_file ==> ({
+            let b2 = put(put(b, f.header_start + 14, le32(f.crc32)), f.header_start + 30 + utf8(f.file_name@).len() + 4,
+                         le64(f.uncompressed_size) + le64(f.compressed_size));
+            at(b2, q, n) == at(b, q, n) && inb(b2, q, n) }),
+{
+    broadcast use group_le_len;
+    if !f.large_file {
+        lemma_at_above(b, f.header_start + 14, le32(f.crc32) + le32(f.compressed_size as u32) + le32(f.uncompressed_size as u32), q, n);
+    } else {
+        let b1 = put(b, f.header_start + 14, le32(f.crc32));
+        lemma_at_above(b, f.header_start + 14, le32(f.crc32), q, n);
+        lemma_put_len(b, f.header_start + 14, le32(f.crc32));
+        lemma_at_above(b1, f.header_start + 30 + utf8(f.file_name@).len() + 4, le64(f.uncompressed_size) + le64(f.compressed_size), q, n);
+    }
+}
+// one accepted chunk extends the stored data region: what was there stays, the chunk follows
+// @props: C01 C09 -- a chunk written right behind a region extends the region by exactly that chunk
+pub proof fn lemma_region_grows(b: Seq<u8>, start: int, n: int, chunk: Seq<u8>)
+    requires 0 <= start, 0 <= n, start + n <= b.len()
+    ensures ({
+        let b2 = put(b, start + n, chunk);
+        inb(b2, start, n + chunk.len()) && at(b2, start, n + chunk.len()) == at(b, start, n) + chunk }),
+{
+    let b2 = put(b, start + n, chunk);
+    let k = chunk.len() as int;
+    if k == 0 {
+        lemma_put_empty(b, start + n);
+        assert(chunk =~= Seq::<u8>::empty());
+        assert(b2 == b);
+        assert(at(b, start, n) + chunk =~= at(b, start, n));
+    } else {
+        lemma_at_below(b, start + n, chunk, start, n);
+        lemma_at_put(b, start + n, chunk, 0, k);
+        assert(chunk.subrange(0, k) =~= chunk);
+        lemma_put_len(b, start + n, chunk);
+        assert(b2.len() >= start + n + k);
+        assert(at(b2, start + n, k) == chunk);
+        assert(at(b2, start, n) == at(b, start, n));
+        assert(at(b2, start, n + k) =~= at(b2, start, n) + at(b2, start + n, k));
+    }
+}
+// the byte stream of the open entry as closing it will leave it in an unencrypted sink: the content itself when stored,
+// otherwise what the installed encoder makes of the content (`compress` of shims/encoders.rs)
+pub open spec fn zw_stream<W: Write + io::Seek>(w: &ZipWriter<W>) -> Seq<u8> {
+    if w.inner is Storer { w.stats.hasher@ } else { compress(w.files@.last().compression_method, gzw_level(w.inner), w.stats.hasher@) }
+}
+// the sink content after update_local_file_header has patched CRC and sizes of `f` into its local header
+pub open spec fn lfh_patched(b: Seq<u8>, f: ZipFileData) -> Seq<u8> {
+    if !f.large_file { put(b, f.header_start + 14, le32(f.crc32) + le32(f.compressed_size as u32) + le32(f.uncompressed_size as u32)) }
+    else { put(put(b, f.header_start + 14, le32(f.crc32)), f.header_start + 30 + utf8(f.file_name@).len() + 4, le64(f.uncompressed_size) + le64(f.compressed_size)) }
+}
+// finish_file, data part: once the installed writer of `w0` has been finished into the bare sink `m_sw` (gzw_switch_to),
+// that sink holds the entry's byte stream from the data start and stands right behind it, and patching the local
+// header of the entry does not touch the stream
+// @props: C01 C02 C12 -- closing an entry leaves its byte stream at its data start, untouched by the header back-patch
+pub proof fn lemma_close_region<W: Write + io::Seek>(w0: &ZipWriter<W>, m_sw: MaybeEncrypted<W>, f: ZipFileData)
+    requires
+        zw_wf(w0), zw_data_ok(w0), zw_data_mode(w0), zw_clean(w0), gzw_finished(w0.inner, m_sw),
+        f.header_start == w0.files@.last().header_start && f.file_name == w0.files@.last().file_name
+            && f.large_file == w0.files@.last().large_file,
+    ensures
+        m_sw is Unencrypted,
+        w0.files@.last().data_start.0.g_val() == w0.stats.start,
+        w0.stats.hasher@.len() == w0.stats.bytes_written,
+        ({
+            let s = m_sw->Unencrypted_0; let start = w0.stats.start as int; let c = zw_stream(w0);
+            &&& s.g_dev() && !s.g_fault() && s.g_pos() == start + c.len()
+            &&& inb(s.g_bytes(), start, c.len() as int) && at(s.g_bytes(), start, c.len() as int) == c
+            &&& inb(lfh_patched(s.g_bytes(), f), start, c.len() as int) && at(lfh_patched(s.g_bytes(), f), start, c.len() as int) == c
+        }),
+{
+    reveal(zw_data_ok);
+    let start = w0.stats.start as int;
+    let c = zw_stream(w0);
+    let m0 = gzw_sink(w0.inner);
+    let s0 = m0->Unencrypted_0;
+    assert(zw_data_facts(w0));
+    assert(m0 is Unencrypted && s0.g_dev() && !s0.g_fault());
+    if !(w0.inner is Storer) {
+        assert(wr_n(&m0, &m_sw, true, c));
+        assert(m_sw.g_dev());
+        let s = m_sw->Unencrypted_0;
+        lemma_put_len(s0.g_bytes(), start, c);
+        if c.len() > 0 {
+            lemma_at_put(s0.g_bytes(), start, c, 0, c.len() as int);
+            assert(c.subrange(0, c.len() as int) =~= c);
+        } else {
+            lemma_put_empty(s0.g_bytes(), start);
+            assert(at(s.g_bytes(), start, 0) =~= c);
+        }
+    }
+    let s = m_sw->Unencrypted_0;
+    assert(lfh_end(f) == lfh_end(w0.files@.last()));
+    lemma_backpatch_below(s.g_bytes(), f, start, c.len() as int);
+}
+// finish_file, ZipCrypto part: what the buffer handed to the cipher consists of
+// @props: C15 C01 -- the ZipCrypto buffer of an open entry is its 12-byte header slot followed by exactly the content
+pub proof fn lemma_enc_buffer_split<W: Write + io::Seek>(w0: &ZipWriter<W>)
+    requires zw_data_ok(w0), zw_data_mode(w0), w0.inner is Storer, w0.inner->Storer_0 is Encrypted,
+    ensures ({
+        let b = w0.inner->Storer_0->Encrypted_0.buffer@;
+        b.len() >= 12 && b == b.subrange(0, 12) + w0.stats.hasher@ && w0.stats.hasher@.len() == w0.stats.bytes_written
+            && w0.files@.last().data_start.0.g_val() == w0.stats.start
+    }),
+{
+    reveal(zw_data_ok);
+    let b = w0.inner->Storer_0->Encrypted_0.buffer@;
+    assert(zw_data_facts(w0));
+    assert(b =~= b.subrange(0, 12) + b.subrange(12, b.len() as int));
+}
